@@ -50,6 +50,16 @@ def extract():
     return info
 
 
+def extract_for(pid):
+    """Run the extractor; a group whose patterns are gone breaks the tie only of the properties
+    whose theorems consume it (the others keep the last good values and rely on the correspondence)."""
+    info = extract()
+    for b in info.get("broken", []):
+        if pid in b.get("properties", []):
+            raise Broken("extract", b["item"], b["msg"])
+    return info
+
+
 def lake_build(targets):
     rc, out, err = sh(["lake", "build"] + list(targets), cwd=LEAN, timeout=3600)
     if rc != 0:
